@@ -26,6 +26,9 @@ type scase struct {
 	Hold    string   `json:"hold"`
 	During  string   `json:"during"`
 	Hold2   string   `json:"hold2"`
+	// Steps, when present, is an explicit schedule (derived from a TLC behaviour of DownstreamImpl):
+	// hold:<point>[#n] | arrive:<point> | release:<point> | await:<event name> | do:<gtimer|ptimer|upresp|upclose|clientreset>
+	Steps []string `json:"steps"`
 }
 
 const (
@@ -141,6 +144,9 @@ func main() {
 		}
 		sched.Reset()
 		atomic.StoreUint64(&firstRid, 0)
+		if c.Steps == nil {
+			c.Steps = []string{} // JSON null is not a TLA+ value
+		}
 		tok := fmt.Sprintf("t%d-%d", *shard, idx)
 		tr.Emit(vh.Ev{"ev": "run", "name": tok, "budget": budget, "case": c})
 		// ids grow monotonically: everything >= the next id belongs to this run
@@ -169,12 +175,72 @@ func main() {
 			}
 			sched.HoldNth(hold2Point, nth)
 		}
+		for _, st := range c.Steps {
+			if strings.HasPrefix(st, "hold:") {
+				arg := st[5:]
+				pt, nth := arg, 1
+				if i := strings.Index(arg, "#"); i > 0 {
+					pt = arg[:i]
+					fmt.Sscanf(arg[i+1:], "%d", &nth)
+				}
+				sched.HoldNth(pt, nth)
+			}
+		}
 		cl, err := e2e.DialHTTP(laddr)
 		vh.Must(err, "dial proxy")
 		vh.Must(cl.Send("GET", "/"+c.Cluster+"/x?tok="+tok, hdr, ""), "send")
 		reached, happened := false, false
 		clientClosed := false
-		if c.Hold != "none" {
+		if len(c.Steps) > 0 {
+			reached, happened = true, true
+			for _, st := range c.Steps {
+				kv := strings.SplitN(st, ":", 2)
+				arg := kv[1]
+				pt, nth := arg, 1
+				if i := strings.Index(arg, "#"); i > 0 {
+					pt = arg[:i]
+					fmt.Sscanf(arg[i+1:], "%d", &nth)
+				}
+				switch kv[0] {
+				case "arrive":
+					if !sched.AwaitArrive(pt, 700*time.Millisecond) {
+						reached = false
+					}
+				case "release":
+					sched.Release(pt)
+				case "await":
+					if _, ok := sched.AwaitEvent(mark, 700*time.Millisecond, func(e gate.Event) bool { return e.Name == arg }); !ok {
+						happened = false
+					}
+				case "do":
+					switch arg {
+					case "clientreset":
+						cl.Close()
+						clientClosed = true
+					case "upresp", "upclose":
+						want := map[string]string{"upresp": "gate", "upclose": "gateclose"}[arg]
+						dl := time.Now().Add(300 * time.Millisecond)
+						done := false
+						for time.Now().Before(dl) && !done {
+							for _, a := range reg.Arrivals(tok) {
+								if a.Behave == want {
+									reg.Release(tok, a.Attempt)
+									done = true
+								}
+							}
+							time.Sleep(3 * time.Millisecond)
+						}
+						if !done {
+							happened = false
+						}
+					}
+				}
+				if !reached {
+					break
+				}
+			}
+			sched.ReleaseAll()
+		} else if c.Hold != "none" {
 			reached = sched.AwaitArrive(holdPoint, 700*time.Millisecond)
 			if reached {
 				m2 := sched.Mark()
